@@ -1,13 +1,15 @@
 #!/bin/sh
-# tools/try_mutant.sh <patch> <ID> [tier]: apply a seeded change to /repo, run one check, undo it straight afterwards.
+# tools/try_mutant.sh <patch> <ID> [tier]: run one check against a scratch worktree of /repo with a seeded change applied
+# (VERIF_REPO points the harness at the worktree; evidence and replays go to a scratch directory). /repo itself is untouched.
 patch="$1"; id="$2"; tier="${3:-quick}"
+wt="/tmp/trial_$$"
+/verif/tools/mkwt.sh "$wt" >/dev/null || exit 3
+git -C "$wt" apply "$patch" || { echo "patch does not apply"; /verif/tools/rmwt.sh "$wt"; exit 3; }
+mkdir -p "$wt/.ev" "$wt/.rp"
 cd /verif
-if ! git -C /repo diff --quiet; then echo "/repo is dirty"; exit 3; fi
-git -C /repo apply "$patch" || { echo "patch does not apply"; exit 3; }
-./check "$id" --tier "$tier" > /tmp/try_$$.log 2>&1; rc=$?
-git -C /repo checkout -- .
-grep -E "^VIOLATION|^KNOWN-FINDING|HELD|VIOLATED|MACHINERY" /tmp/try_$$.log | cut -c1-300 | head -12
-grep -E "^  key=" /tmp/try_$$.log | cut -c1-400 | head -4
-rm -f /tmp/try_$$.log
+VERIF_REPO="$wt" VERIF_EVIDENCE_DIR="$wt/.ev" VERIF_REPLAYS_DIR="$wt/.rp" ./check "$id" --tier "$tier" > "$wt/.log" 2>&1; rc=$?
+grep -E "^VIOLATION|^KNOWN-FINDING|HELD|VIOLATED|MACHINERY" "$wt/.log" | cut -c1-300 | head -8
+grep -E "^  key=" "$wt/.log" | cut -c1-500 | head -3
+/verif/tools/rmwt.sh "$wt"
 echo "exit=$rc"
 exit $rc
